@@ -282,6 +282,7 @@ M("C07", "c07_producer_work_gate", ["Mempool::can_bundle_block (async body)"], "
 M("C07", "c07_pool_work_counter_exact", ["Mempool::delete_transactions", "Blockchain::remove_block_transactions"], "pool of two transactions with symbolic work and signatures, stale counter arbitrary, confirmed transaction arbitrary; call order on every path of remove_block_transactions", covers=2)
 
 M("C07", "c07_validator_work_gate", ["Block::validate (async body)"], "same as c08_block_work_gate: all ~1500 paths of Block::validate, argument roles of the requirement computation", covers=1)
+M("C07", "c07_bundle_releases_every_reservation", ["Mempool::bundle_block (async body)"], "same as c14_bundle_releases_reservations: the created block a symbolic input, two transactions of symbolic type with one reserved input each; staking transaction / can_bundle / generate answers favourable", covers=1)
 # ============================================================================== C18
 PROPERTY_ASSUMPTIONS["C18"] = [
     "engine M over the per-transaction projection step of Block::generate_lite_block (the closure mapped over the block's transactions); slice::contains is membership, slice::binary_search is specified only for sorted slices (arbitrary otherwise)",
